@@ -345,7 +345,7 @@ Definition leaf_ip (l : leaf) (x out : ref) (h : heap) : heap :=
   | LHuber gamma sigma => call_huber gamma sigma x out h
   | LSimplex d => st1 (simplex_val d) x out h                             (* proj_simplex(x, diameter, out) *)
   | LScaling s => st1 (scal s) x out h                                    (* out.lincomb(self.scalar, x) *)
-  | LZero => st1 zeros_like x out h                                       (* out.lincomb(0, x) *)
+  | LZero => st1 (scal nzero) x out h                                     (* out.lincomb(0, x) *)
   | LConst c => st0 c out h                                               (* out.assign(self.constant) *)
   | LMult m =>                                                            (* out.assign(self.multiplicand * x) *)
       let '(t, h1) := fresh (length x) h in
@@ -445,7 +445,7 @@ Definition leaf_pure (l : leaf) (v : val) : val :=
   | LHuber gamma sigma => pure_huber gamma sigma v
   | LSimplex d => simplex_val d v
   | LScaling s => scal s v
-  | LZero => zeros_like v
+  | LZero => scal nzero v
   | LConst c => c
   | LMult m => mult_val m v
   end.
